@@ -987,6 +987,28 @@ theorem msgUpdate_ok_iff {v : Variant} {env : Env} {now : Nat} {s s' : State} {h
         rw [this] at h1
         cases h1
 
+/-- **difficulty_factor_bounds**: the adjustment factor lies in [−99, 2] (for a child not older than its parent), and
+    it IS −99 as soon as the child is ≥ 909 s after its parent, whether or not the parent has uncles (without uncles
+    already from 900 s on): the uncle term sits inside the maximum -/
+theorem difficulty_factor_bounds (time : Nat) (p : Header) :
+    -99 ≤ diffFactor time p ∧ (p.time ≤ time → diffFactor time p ≤ 2) ∧
+    (p.time + 909 ≤ time → diffFactor time p = -99) ∧ (p.uncleEmpty = true → p.time + 900 ≤ time → diffFactor time p = -99) := by
+  unfold diffFactor
+  refine ⟨?_, ?_, ?_, ?_⟩
+  · dsimp only; split <;> omega
+  · intro h
+    have h0 : (0 : Int) ≤ ((time : Int) - (p.time : Int)) / 9 := Int.ediv_nonneg (by omega) (by omega)
+    dsimp only
+    cases p.uncleEmpty <;> simp <;> split <;> omega
+  · intro h
+    have h0 : (101 : Int) ≤ ((time : Int) - (p.time : Int)) / 9 := by omega
+    dsimp only
+    cases p.uncleEmpty <;> simp <;> omega
+  · intro hu h
+    have h0 : (100 : Int) ≤ ((time : Int) - (p.time : Int)) / 9 := by omega
+    dsimp only
+    simp [hu]; omega
+
 /-- `beNat []  = 0`: an absent (empty) base fee / difficulty IS the value 0 -/
 theorem beNat_nil : beNat [] = 0 := rfl
 
